@@ -97,6 +97,40 @@ def run(ctx):
     m2(ctx, fx, I, C)
     # ---- M3
     m3(ctx, fx, I, D, C)
+    # ---- M4: "never changes a claim's name": the disclosure text of this configuration still carries serde's JSON encoding of the
+    # unmodified member name in the [salt, name, value] template (the rule of C01.e, re-judged on the mock_salts MIR; the value side is M3/M3b)
+    import c01
+
+    class NameOnly:
+        def __init__(self, ctx):
+            self.ctx = ctx
+
+        def _keep(self, a):
+            what = a[1] if len(a) > 1 else ""
+            return what.startswith("name-encoding") or what.startswith("text-format")
+
+        def ok(self, rule, *a, **k):
+            if self._keep(a):
+                k["config"] = C
+                return self.ctx.ok("C16.M4", *a, **k)
+
+        def finding(self, rule, *a, **k):
+            if self._keep(a):
+                k["config"] = C
+                return self.ctx.finding("C16.M4", *a, **k)
+
+        def missing(self, rule, what, why, **k):
+            return self.ctx.missing("C16.M4", what, why, config=C)
+
+        def floor(self, rule, *a, **k):
+            return None
+
+        def facts(self, *a, **k):
+            return self.ctx.facts(*a, **k)
+
+        def info(self, *a, **k):
+            return None
+    c01.clause_e(NameOnly(ctx), fx, config=C)
 
 
 def is_rng_call(t):
